@@ -40,3 +40,21 @@ type Source = rrand.Source
 
 func New(src Source) *Rand          { return rrand.New(src) }
 func NewPCG(a, b uint64) *rrand.PCG { return rrand.NewPCG(a, b) }
+
+func Int32() int32            { return rrand.Int32() }
+func Int32N(n int32) int32    { return rrand.Int32N(n) }
+func Uint32N(n uint32) uint32 { return rrand.Uint32N(n) }
+func Uint64N(n uint64) uint64 { return rrand.Uint64N(n) }
+func UintN(n uint) uint       { return rrand.UintN(n) }
+func Uint() uint              { return rrand.Uint() }
+func ExpFloat64() float64     { return rrand.ExpFloat64() }
+func N[T ~int | ~int8 | ~int16 | ~int32 | ~int64 | ~uint | ~uint8 | ~uint16 | ~uint32 | ~uint64 | ~uintptr](n T) T {
+	return rrand.N(n)
+}
+
+type PCG = rrand.PCG
+type ChaCha8 = rrand.ChaCha8
+type Zipf = rrand.Zipf
+
+func NewChaCha8(seed [32]byte) *ChaCha8                { return rrand.NewChaCha8(seed) }
+func NewZipf(r *Rand, s, v float64, imax uint64) *Zipf { return rrand.NewZipf(r, s, v, imax) }
